@@ -26,7 +26,9 @@ EXTENDS Naturals, Sequences, FiniteSets, TLC
 Attrs == {"none", "source", "not_source", "backtrace", "not_backtrace", "ignore", "source_backtrace",
           "nb_source", "source_nb", "ns_backtrace", "backtrace_ns"}
 Names == {"source", "backtrace", "other"}
-Types == {"err", "generic", "assoc", "box", "bt"}     \* "assoc": `T::Assoc` of a type parameter
+Types == {"err", "generic", "assoc", "box", "bt", "bterr"}     \* "assoc": `T::Assoc` of a type parameter
+\* the rules look at the NAME of the type: "bterr" is a user error type that happens to be called `Backtrace`
+NamedBacktrace(ty) == ty \in {"bt", "bterr"}
 
 SrcFlag(a) == CASE a \in {"source", "source_backtrace", "nb_source", "source_nb"} -> "yes"
                 [] a \in {"not_source", "ns_backtrace", "backtrace_ns"} -> "no" [] OTHER -> "unset"
@@ -42,9 +44,9 @@ Enabled(l) == {i \in All(l) : ~Ignored(l[i])}
 (***************************************************************************)
 \* default (attribute-less) candidates, by the documented rules; `len` counts the declared fields
 DocDefaultSource(l, named, i) ==
-    IF named THEN l[i].name = "source" ELSE Len(l) = 1 /\ l[i].ty # "bt"
+    IF named THEN l[i].name = "source" ELSE Len(l) = 1 /\ ~NamedBacktrace(l[i].ty)
 DocDefaultBacktrace(l, named, i) ==
-    IF named THEN l[i].name = "backtrace" \/ l[i].ty = "bt" ELSE l[i].ty = "bt"
+    IF named THEN l[i].name = "backtrace" \/ NamedBacktrace(l[i].ty) ELSE NamedBacktrace(l[i].ty)
 
 \* result: <<"field", i>> | <<"none">> | <<"error">>
 Pick(explicit, inferred) ==
